@@ -24,6 +24,8 @@ def main(run: Run):
     shadow_l1.add_to(run)
     from . import mux_l1
     mux_l1.add_to(run, "write")
+    from . import ctor_l1
+    ctor_l1.add_to(run, ['mux_check_map', 'mux_init'])
     return run.finish(
         explanation="Multiplexer.elaborate write-side contract per layout: write-strobe exactness (one cycle after a write to the last address, never otherwise) for ALL input "
                     "sequences; atomicity via a ghost monitor of the chunks written in the open transaction and an inductive invariant over "
